@@ -188,12 +188,13 @@ theorem Call.same_comm (a b : Call) : a.same b = b.same a := by
   unfold Call.same
   rw [BEq.comm (a := a.thread), BEq.comm (a := a.index), BEq.comm (a := a.sub)]
 
-/-- a sequence of calls is accepted by the sequential statement from `st` -/
+/-- a sequence of calls is accepted by the sequential statement from `st` (inside a
+    concurrent block the size clause is not applied, see `Spec.C09.linearizable`) -/
 def accepted (st : St) : List Call → Bool
   | [] => true
   | c :: rest =>
     let r := stepSt st 0 (c.op, c.obs)
-    r.2.all Fail.isStale && accepted r.1 rest
+    r.2.all Fail.sizeOnly && accepted r.1 rest
 
 /-- if the decision procedure says "linearizable", there is an order of the calls that
     is a permutation of them, never puts a call before one that had already responded
@@ -207,12 +208,12 @@ theorem linearizable_sound : ∀ (fuel : Nat) (st : St) (calls : List Call),
   induction fuel with
   | zero =>
     intro st calls _ h
-    simp only [linearizable, List.isEmpty_iff] at h
+    simp only [linearizable, linearizableWith, List.isEmpty_iff] at h
     subst h
     exact ⟨[], List.Perm.refl _, List.Pairwise.nil, rfl⟩
   | succ fuel ih =>
     intro st calls hd h
-    simp only [linearizable, Bool.or_eq_true, List.isEmpty_iff, List.any_eq_true, Bool.and_eq_true] at h
+    simp only [linearizable, linearizableWith, Bool.or_eq_true, List.isEmpty_iff, List.any_eq_true, Bool.and_eq_true] at h
     rcases h with h | ⟨c, hc, hmin, hfs, hrest⟩
     · subst h; exact ⟨[], List.Perm.refl _, List.Pairwise.nil, rfl⟩
     · have hd' : (calls.filter fun p => !p.same c).Pairwise (fun a b => a.same b = false) :=
